@@ -132,8 +132,11 @@ package runtime
 //@   ensures[partial] result.AllowPartial
 
 //@ func UnmarshalInputToOptions
-//@   property C14
+//@   property C14, C06
 //@   mode bv
+//@   note recursion budget: strictly smaller than the caller's, and never the zero that proto.UnmarshalOptions would re-default
+//@   ensures[budget-smaller] input.Depth > 0 ==> result.RecursionLimit < input.Depth
+//@   ensures[budget-not-redefaulted] input.Depth > 0 ==> result.RecursionLimit != 0
 //@   ensures[discard] result.DiscardUnknown <==> input.Flags & protoiface.UnmarshalDiscardUnknown != 0
 //@   ensures[partial] result.AllowPartial
 //@   ensures[resolver] result.Resolver == input.Resolver
